@@ -209,7 +209,7 @@ def tlc(module, cfg, workers=16, simulate=None, depth=None, tlc_seed=None, timeo
 
 
 def apalache_inductive(module, init, inv, cinit="ConstInit", timeout=600):
-    """
+    r"""
     Discharge an inductive invariant with Apalache: (init => inv) at length 0 and (inv as initial predicate /\ Next => inv')
     at length 1. Returns a dict for the evidence notes; raises MachineryError when Apalache finds a counterexample (the
     argument is about the model) or cannot be run.
@@ -236,6 +236,26 @@ def apalache_inductive(module, init, inv, cinit="ConstInit", timeout=600):
         except OSError:
             pass
     return {"tool": "apalache-mc 0.58", "module": module, "inductive_invariant": inv, "obligations": steps}
+
+
+def read_independently(make_reader):
+    """
+    list(make_reader()), read a second time while (a) a reader abandoned after its first item is still alive and (b) a
+    further reader is advanced in lockstep: every call of a row reader is its own copy of the machine, so the second
+    reading must equal the first. Returns (rows, rows of the disturbed reading or None when there is nothing to disturb).
+    """
+    rows = list(make_reader())
+    if len(rows) < 2:
+        return rows, None
+    abandoned = make_reader()
+    next(abandoned)
+    first, second = make_reader(), make_reader()
+    disturbed = []
+    for row in first:
+        disturbed.append(row)
+        next(second, None)
+    del abandoned
+    return rows, disturbed
 
 
 def require_coverage(result, actions, module=None):
